@@ -157,6 +157,13 @@ func c03Run(r *sim.Run) {
 		}
 		x = p.Stream()
 		name = "packager-stream"
+	} else if t.Chance(80) {
+		p, err := work.RawProduce(r, 2, 3, 2, 4)
+		if err != nil {
+			panic(sim.HarnessAbort{Msg: "raw fragment producer: " + err.Error()})
+		}
+		x, name = p.Stream(), "raw-fragment-stream"
+		r.Probe("raw-fragment-production")
 	} else if t.Chance(120) {
 		// an init segment built by a seeded AddEmptyTrack/Set*Descriptor history (ac-3, ec-3, stpp, wvtt, hev1 ... entries)
 		var init *mp4.InitSegment
